@@ -9,7 +9,7 @@ func init() { Scenarios["C05"] = scenarioC05 }
 
 type c05cell struct {
 	Carrier     string // tcp+tls, wss, starttls-tcp, starttls-ws, starttls-udp, starttls-dns, udp-secret
-	ServerCert  string // good, wronghost, untrusted, expired
+	ServerCert  string // good, wronghost, untrusted, expired, expiring-soon (valid for 200 s more), not-yet-valid (valid in 200 s)
 	Insecure    bool   // -k
 	ClientCert  string // "", good, foreign, impostor
 	RequireCert bool
@@ -34,7 +34,7 @@ func orNone(s string) string {
 func C05Cells() []c05cell {
 	var out []c05cell
 	for _, carrier := range []string{"tcp+tls", "wss", "starttls-tcp", "starttls-ws", "starttls-udp", "starttls-dns"} {
-		for _, sc := range []string{"good", "wronghost", "untrusted", "expired"} {
+		for _, sc := range []string{"good", "wronghost", "untrusted", "expired", "expiring-soon", "not-yet-valid"} {
 			for _, k := range []bool{false, true} {
 				for _, cc := range []string{"", "good", "foreign", "impostor"} {
 					for _, req := range []bool{false, true} {
@@ -55,7 +55,7 @@ func c05expect(c c05cell) (admit bool, why string) {
 	if c.Carrier == "udp-secret" {
 		return c.Secret == "equal", "shared secret " + c.Secret
 	}
-	clientAdmits := c.Insecure || c.ServerCert == "good"
+	clientAdmits := c.Insecure || c.ServerCert == "good" || c.ServerCert == "expiring-soon"
 	serverAdmits := !c.RequireCert || c.ClientCert == "good"
 	switch {
 	case !clientAdmits:
@@ -168,6 +168,12 @@ func scenarioC05(r *Run) {
 		targetGot += rc
 	}
 	sig := "cell=" + cell.String()
+	if (cell.ServerCert == "expiring-soon" || cell.ServerCert == "not-yet-valid") && r.SimElapsed() > 190*time.Second {
+		// the validity boundary lies 200 s after the start: a run that took longer says nothing about it
+		r.Count("time_boundary_unjudged")
+		r.NonTriv = true
+		return
+	}
 	switch {
 	case expect && !established:
 		r.FailSig("rejected-legitimate-peer", sig, "%s: cell %s (%s): the session must be established but the application was not served: %v", out, cell, why, cs.Describe())
